@@ -466,6 +466,11 @@ def check_C20(tier, seed):
         if sig in known:
             seen_known += 1
             continue
+        # D15 is "kvElection.ctx is written under e.mu by Start / StopWithContext and read without it": a reader that is not in
+        # the list (the read moved into a helper, a new log line) is the same finding; another writer, or another field, is not
+        if fld == "kvElection.ctx" and any(k.startswith("C20/static/kvElection.ctx/w=%s/r=" % w) for k in known):
+            seen_known += 1
+            continue
         res.violations.append(("conflicting accesses to %s by %s (write) and %s are not ordered by any common lock" % (fld, w, r),
                                {"property": "C20", "kind": "lock-discipline", "field": fld, "writer": w, "other": r, "signature": sig,
                                 "how": "static access table regenerated from the source (gen/GenLocks.v); see the positions there",
